@@ -11,7 +11,8 @@ class C05(HistCheck):
     ORACLES = (hist.oracle_c05,)
     RULE = ("GDE3 / GDE3MNN / GDE32NN / GDE3P driven by ask-and-tell for 4 generations on random bounded problems whose objectives and violations are rounded "
             "(ties in every objective, equal CV), 0..2 constraints, both survivals; the candidate list handed to the survival is recorded (class-level wrapper) and "
-            "compared with the model slot by slot, then the truncation with recorded oracle answers; non-trivial = run of >= 2 generations; distinct by hash")
+            "compared with the model slot by slot, then the truncation with recorded oracle answers; non-trivial = run of >= 2 generations; distinct by hash"
+            "; 30% of NSDE/GDE3 cases use the algorithm's default survival object, 30% of all cases run after a default-constructed algorithm of the same class was stepped on another (constrained <-> unconstrained) problem in the same process")
     ASSUMPTIONS = ["pymoo get_relation is modelled (CV first, then the objective loop with early exit) and proved equal to constraint domination",
                    "survival oracles as in C03"]
 
